@@ -1211,7 +1211,9 @@ def gen_typed(rng, ports, routes=("builder", "setter", "socket", "decode"), keys
         own = signers_for(kt)[0]
         for key in keys:
             for route in routes:
-                steps = [{"op": "build", "h": "r", "kt": kt, "signer": own, "calls": [{"m": "ip4", "ip": [10, 0, 0, 1]}, {"m": "ip6", "ip": [0] * 15 + [1]}]}]
+                steps = [{"op": "build", "h": "r", "kt": kt, "signer": own, "obs": "typed", "calls": [{"m": "ip4", "ip": [10, 0, 0, 1]}, {"m": "ip6", "ip": [0] * 15 + [1]}]},
+                         {"op": "build", "h": "r0", "kt": kt, "signer": own, "obs": "typed", "calls": [{"m": "ip", "ip": [192, 0, 2, 1]}]},
+                         {"op": "build", "h": "r0", "kt": kt, "signer": own, "obs": "typed", "calls": [{"m": "ip", "ip": [0x20, 1] + [0] * 13 + [1]}]}]
                 for pi, p in enumerate(ports):
                     if route == "builder":
                         b = {"op": "build", "h": "b", "kt": kt, "signer": own, "obs": "typed", "calls": [{"m": bmeth[key], "port": p}]}
@@ -1376,6 +1378,11 @@ def gen_eq(rng, n, kts=("k256", "libsecp", "ed", "comb")):
             steps.append({"op": "decode", "h": "y", "kt": kt, "input": {"rec": {"seq": [7], "pairs": mk(pb), "sig": {"by": own}}}, "tag": "eq_boundary_shift"})
             steps.append({"op": "compare", "a": "x", "b": "y"})
             steps.append({"op": "compare", "a": "y", "b": "x"})
+        # the elements of a decoded Vec<Enr> equal the records decoded one by one
+        l1 = {"rec": {"seq": [7], "pairs": sorted(basep + [[B("a"), enc_str(B("b"))]], key=lambda p: bytes(p[0])), "sig": {"by": own}}}
+        l2 = {"rec": {"seq": [8], "pairs": sorted(basep, key=lambda p: bytes(p[0])), "sig": {"by": own}}}
+        steps.append({"op": "decode_list", "kt": kt, "input": {"list": [l1, l2, l1]}, "tag": "list_valid_3"})
+        steps.append({"op": "encode_list", "hs": ["x", "y", "x"]})
     out.append({"sid": sid(), "steps": steps})
     return out
 
